@@ -1145,3 +1145,48 @@ Proof.
   apply Permutation_length in P. unfold akeys in P. rewrite !map_length in P.
   unfold zlength. rewrite P. reflexivity.
 Qed.
+
+(* ================================================================== the listing order is unique *)
+Lemma elt_lt_trans a b c : elt_lt a b -> elt_lt b c -> elt_lt a c.
+Proof.
+  unfold elt_lt. intros [H1|[E1 H1]] [H2|[E2 H2]].
+  - left. eapply slt_trans; eassumption.
+  - left. rewrite <- E2. exact H1.
+  - left. rewrite E1. exact H2.
+  - right. split; [congruence|eapply blt_trans; eassumption].
+Qed.
+
+(* two strictly sorted lists with the same elements are the same list *)
+Lemma sorted_unique {A} (R : A -> A -> Prop) (l1 l2 : list A) :
+  (forall a, ~ R a a) -> (forall a b c, R a b -> R b c -> R a c) ->
+  StronglySorted R l1 -> StronglySorted R l2 -> (forall x, In x l1 <-> In x l2) -> l1 = l2.
+Proof.
+  intros Irr Tr. revert l2. induction l1 as [|x1 r1 IH]; intros l2 S1 S2 Same.
+  - destruct l2 as [|x2 r2]; [reflexivity|]. exfalso. apply (Same x2). left; reflexivity.
+  - destruct l2 as [|x2 r2]; [exfalso; apply (Same x1); left; reflexivity|].
+    apply StronglySorted_inv in S1 as [S1 F1]. apply StronglySorted_inv in S2 as [S2 F2].
+    rewrite Forall_forall in F1, F2.
+    assert (E : x1 = x2).
+    { assert (H1 : In x1 (x2 :: r2)) by (apply Same; left; reflexivity).
+      assert (H2 : In x2 (x1 :: r1)) by (apply Same; left; reflexivity).
+      destruct H1 as [H1|H1]; [congruence|]. destruct H2 as [H2|H2]; [congruence|].
+      exfalso. apply (Irr x1). eapply Tr; [apply F1; exact H2|apply F2; exact H1]. }
+    subst x2. f_equal. apply IH; try assumption.
+    intros x. split; intros H.
+    + assert (Q : In x (x1 :: r2)) by (apply Same; right; exact H).
+      destruct Q as [Q|Q]; [|exact Q]. subst x. exfalso. apply (Irr x1). apply F1; exact H.
+    + assert (Q : In x (x1 :: r1)) by (apply Same; right; exact H).
+      destruct Q as [Q|Q]; [|exact Q]. subst x. exfalso. apply (Irr x1). apply F2; exact H.
+Qed.
+
+(* the member list of a valid set is THE listing of its dictionary in (score, name) order *)
+Lemma members_unique z (l : list elt) :
+  zset_inv z -> StronglySorted elt_lt l ->
+  (forall m sc, In (m, sc) l <-> alookup m (zdict z) = Some sc) -> l = members (zroot z).
+Proof.
+  intros I S H. apply (sorted_unique elt_lt); try assumption.
+  - apply elt_lt_irrefl.
+  - apply elt_lt_trans.
+  - apply zset_inv_members_sorted; exact I.
+  - intros [m sc]. rewrite H. apply zset_inv_dict_members; exact I.
+Qed.
